@@ -94,7 +94,27 @@ func execAlias(s *Sexp) string {
 			lastAliasOracle = append(lastAliasOracle, "Marshal modified the value it was given")
 		}
 		snapshot := append([]byte(nil), out...)
+		// and into empty destinations with no or little room (a re-used scratch buffer)
+		var smalls, smallSnaps [][]byte
+		if c.tag == "" {
+			for _, dst := range [][]byte{{}, make([]byte, 0, 1), make([]byte, 0, 3)} {
+				o2, err := c.p.Marshal(dst, src.Interface())
+				if err != nil {
+					return "err"
+				}
+				if !multiEntryMaps(v) && !bytes.Equal(o2, snapshot[len(prefix):]) {
+					lastAliasOracle = append(lastAliasOracle, "Marshal into an empty buffer differs from Marshal after a prefix")
+				}
+				smalls = append(smalls, o2)
+				smallSnaps = append(smallSnaps, append([]byte(nil), o2...))
+			}
+		}
 		scrambleBytes(src.Elem())
+		for i, o2 := range smalls {
+			if !bytes.Equal(o2, smallSnaps[i]) {
+				lastAliasOracle = append(lastAliasOracle, "Marshal's output (empty destination buffer) shares memory with the value")
+			}
+		}
 		if !bytes.Equal(out, snapshot) {
 			lastAliasOracle = append(lastAliasOracle, "Marshal's output shares memory with the value (changed when the value's byte slices were overwritten)")
 		}
@@ -127,6 +147,9 @@ func runC11(r *Runner, g *Gen, tier string) string {
 	for i := 0; i < n; i++ {
 		cfg := g.pickCfg()
 		t := g.topType(3)
+		if g.r.P(8) {
+			t = Slice(B("uint8")) // top-level []byte
+		}
 		if knownShape(cfg, t, false) {
 			continue
 		}
